@@ -25,6 +25,8 @@ def configs(tier):
                         method="default"))
         for method, api in itertools.product(["loky_init_main", "spawn", "fork"],
                                              ["ppe", "reusable"]):
+            if method == "fork" and api == "reusable":
+                continue        # get_reusable_executor refuses the fork context by design
             for how in (["timeout"], ["resize"]):
                 out.append(dict(max_depth=2, levels=3, api=api, how=how, method=method))
     return out
